@@ -259,7 +259,7 @@ def run_gen(spec, res):
             text = D.render_doc(tree, fam, prefixes=prefixes)
             case = {'family': fam, 'version': version, 'doc': text, 'fault': fault}
             compare_document(res, xmlschema, schema, text, (fam, fault), case, rng, spec['tier'], scratch, len(tree.children))
-            if res.evaluations % 900 < 40:
+            if len(res.samples) < 2:
                 res.sample({'family': fam, 'fault': fault, 'root_children': len(tree.children), 'chars': len(text)})
 
 
